@@ -914,7 +914,17 @@ def gen_cases(tier, rng):
     return cases
 
 
-LEVEL_TEXT = ("Machine-checked proof (Coq) over an executable model of the siphon/trap predicates, the minimal-set filter, the Petri "
-              "firing rule and the bounded breadth-first realizability search; see notes/C20.md for the theorem list.")
-LEVEL_NOTE = ("Trusted: Coq kernel + vm_compute; the hand-written model and the harness encoders; CPython dict/set/deque semantics. "
-              "Modelled, not verified: networkx graph storage; hypergraph_to_bipartite only as far as needed; persistence condition (floats).")
+LEVEL_TEXT = ("Machine-checked proof (Coq, 9 theorems, all closed under the global context) over an executable, structure-following model of "
+              "structure.py / net.py / realizability.py: (1) the siphon and trap index predicates equal the Petri-net definitions for every network "
+              "and every species subset; (2) _minimal_sets returns exactly the inclusion-minimal candidates for every candidate list; (3) find_siphons / "
+              "find_traps report exactly the minimal non-empty siphons / traps (for every max_size); (4) enabled <=> marking covers the reactants, "
+              "fire = products - reactants at every place; (5) for every network, flow and bounds a sequence returned by is_realizable fires each "
+              "reaction exactly flow times, is covered at every step (hence never negative) and returns every species to zero; (6) the search fuel "
+              "is never exhausted; (7) completeness within the bounds, proved with the bounds and the existence premise stated on the extended Petri "
+              "net the code builds (_partial; the missing converse simulation is named in props/C20.v).  The model is tied to the Python code by "
+              "comparing, on every run, predicate values per subset, minimal sets, the built net, verdict, certificate and the number of "
+              "enabled()/fire() calls of the search.")
+LEVEL_NOTE = ("Trusted: Coq kernel + vm_compute; the hand-written model and the harness encoders; CPython dict/set/deque/itertools semantics. "
+              "Modelled, not verified: networkx graph storage; hypergraph_to_bipartite only as far as C20 reads it; caller-supplied nx graphs "
+              "(directed / undirected) are covered by the correspondence only; siphon_persistence_condition (floating-point semiflows) is not "
+              "covered beyond its siphon input; completeness is _partial as described.")
